@@ -514,6 +514,19 @@ func histGen(r *rand.Rand, n int, emit func(core.Case)) {
 				steps = append(steps, map[string]any{"op": "umerge", "o": o, "o2": o2, "nolazy": r.IntN(3) == 0})
 			case "scribble":
 				steps = append(steps, map[string]any{"op": "scribble", "o": o})
+			case "evo":
+				// delete a random subset of the top-level fields (not extensions: they live in other scopes)
+				var del []any
+				fds := md.Fields()
+				for k := 0; k < fds.Len(); k++ {
+					if r.IntN(3) == 0 {
+						del = append(del, int(fds.Get(k).Number()))
+					}
+				}
+				if del == nil {
+					del = []any{}
+				}
+				steps = append(steps, map[string]any{"op": "evo", "o": o, "o2": o2, "del": del, "det": r.IntN(2) == 0})
 			default:
 				mu := randMutation(r, md, o)
 				if !keepsUnknown {
